@@ -249,7 +249,7 @@ def fuzz(ctx, bases):
     secs = int(os.environ.get("LWV_FUZZ_SECS", "120"))
     tgt = os.path.join(WORK, "fuzz_target")
     srcs = repo_c_files()
-    rc, out, err = run(["clang", "-g", "-O1", "-w", "-std=gnu17", "-fsanitize=fuzzer,address,undefined", "-fno-sanitize=shift,alignment,nonnull-attribute", "-fno-sanitize-recover=all",
+    rc, out, err = run(["clang", "-g", "-O1", "-w", "-std=gnu17", "-fsanitize=fuzzer,address,undefined", "-fno-sanitize=shift,alignment,nonnull-attribute,pointer-overflow", "-fno-sanitize-recover=all",
                         "-I" + SRC, '-DLIBWIFI_VERSION="fuzz"', os.path.join(VERIF, "harness", "fuzz", "fuzz_target.c")] + srcs + ["-o", tgt], timeout=900)
     if rc != 0:
         ctx.notes.append("libFuzzer target did not build (clang): %s" % err[-300:])
